@@ -366,16 +366,16 @@ theorem rowPsm_some {T : Transforms} {mode : Mode} {m : DMap} {flank : Bool} {r 
     (h : rowPsm T mode m flank r = some x) :
     x.modPep = rowPeptide mode.format flank r ∧ x.score = rowScore T mode.format r ∧
     x.prots = removeDecoyProteinsFromTargetPeptides
-      (sourceProteins mode.remap m (rowPeptide mode.format flank r) (rowProteins mode.format r)) ∧
+      (sourceProteins mode.remap m (rowPeptide mode.format flank r) (rowProteinsOf mode r)) ∧
     x.prots ≠ [] ∧
     (mode.remap = true → digestLookup m x.key ≠ []) := by
   unfold rowPsm mapProteins at h
   by_cases hc : mode.remap = true ∧
-      (sourceProteins mode.remap m (rowPeptide mode.format flank r) (rowProteins mode.format r)).isEmpty = true
+      (sourceProteins mode.remap m (rowPeptide mode.format flank r) (rowProteinsOf mode r)).isEmpty = true
   · rw [if_pos hc] at h; simp at h
   · rw [if_neg hc] at h
     by_cases he : (removeDecoyProteinsFromTargetPeptides
-        (sourceProteins mode.remap m (rowPeptide mode.format flank r) (rowProteins mode.format r))).isEmpty = true
+        (sourceProteins mode.remap m (rowPeptide mode.format flank r) (rowProteinsOf mode r))).isEmpty = true
     · simp [he] at h
     · simp only [he] at h
       simp only [Bool.false_eq_true, if_false, Option.some.injEq] at h
